@@ -128,6 +128,10 @@ type Interp struct {
 	violatedLabels map[string]bool
 	bigs           map[*Object]*big.Int
 	pathViolations int
+
+	sch *sched
+	mus map[string]*muState
+	wgs map[string]*int
 }
 
 type opaqueBlob struct {
@@ -1156,9 +1160,9 @@ func (in *Interp) exec(fr *Frame, ins ssa.Instruction) {
 		d.fn, d.args = fnv, args
 		fr.defers = append(fr.defers, d)
 	case *ssa.Go:
-		// goroutines run to completion at the spawn point
+		// a goroutine runs at once until it first blocks (see sched.go)
 		fnv, args := in.prepareCall(fr, &x.Call)
-		in.invokeDeferred(fr, deferred{fn: fnv, args: args})
+		in.spawn(fr, fnv, args)
 	case *ssa.Send:
 		ch := in.get(fr, x.Chan).(*ChanObj)
 		in.chanSend(ch, in.get(fr, x.X))
@@ -2072,54 +2076,68 @@ func (in *Interp) sameRef(a, b Value) bool {
 
 func (in *Interp) chanSend(ch *ChanObj, v Value) {
 	if ch == nil {
-		in.unsupported("send on nil channel (blocks forever)")
+		in.block(func() bool { return false }, "send on nil channel")
+	}
+	rendezvous := ch.cp == 0 && in.sch != nil
+	switch {
+	case ch.cp > 0:
+		in.block(func() bool { return ch.closed || len(ch.buf) < ch.cp }, "send on full channel")
+	case rendezvous:
+		in.block(func() bool { return ch.closed || len(ch.buf) == 0 }, "send on unbuffered channel")
 	}
 	if ch.closed {
 		in.goPanic("send on closed channel")
 	}
-	if ch.cp > 0 && len(ch.buf) >= ch.cp {
-		in.unsupported("send on full channel (would block)")
-	}
 	nb := append(append([]Value{}, ch.buf...), v)
 	in.setChan(ch, nb, ch.closed)
+	ch.sent++
+	if rendezvous {
+		// an unbuffered send completes when the value has been received
+		seq := ch.sent
+		in.block(func() bool { return ch.recvd >= seq }, "send on unbuffered channel")
+	}
 }
 
 func (in *Interp) chanRecv(ch *ChanObj) (Value, bool) {
 	if ch == nil {
-		in.unsupported("receive on nil channel (blocks forever)")
+		in.block(func() bool { return false }, "receive on nil channel")
 	}
+	in.block(func() bool { return len(ch.buf) > 0 || ch.closed }, "receive on empty channel")
 	if len(ch.buf) > 0 {
 		v := ch.buf[0]
 		in.setChan(ch, append([]Value{}, ch.buf[1:]...), ch.closed)
+		ch.recvd++
 		return v, true
 	}
-	if ch.closed {
-		return in.zero(ch.elemT), false
-	}
-	in.unsupported("receive on empty channel (would block)")
-	return nil, false
+	return in.zero(ch.elemT), false
 }
 
 func (in *Interp) selectOp(fr *Frame, x *ssa.Select) Value {
 	st := in.st
 	// result tuple: (index int, recvOk bool, r_0 T_0, ... r_n-1 T_n-1) for each recv state
-	ready := -1
-	for i, s := range x.States {
-		ch, _ := in.get(fr, s.Chan).(*ChanObj)
-		if ch == nil {
-			continue
-		}
-		if s.Dir == types.RecvOnly {
-			if len(ch.buf) > 0 || ch.closed {
-				ready = i
-				break
+	findReady := func() int {
+		for i, s := range x.States {
+			ch, _ := in.get(fr, s.Chan).(*ChanObj)
+			if ch == nil {
+				continue
 			}
-		} else {
-			if ch.closed || ch.cp == 0 || len(ch.buf) < ch.cp {
-				ready = i
-				break
+			if s.Dir == types.RecvOnly {
+				if len(ch.buf) > 0 || ch.closed {
+					return i
+				}
+			} else {
+				// an unbuffered channel is modelled with one slot when other goroutines exist
+				if ch.closed || (ch.cp == 0 && (in.sch == nil || len(ch.buf) == 0)) || (ch.cp > 0 && len(ch.buf) < ch.cp) {
+					return i
+				}
 			}
 		}
+		return -1
+	}
+	ready := findReady()
+	if ready < 0 && x.Blocking && in.sch != nil {
+		in.block(func() bool { return findReady() >= 0 }, "select")
+		ready = findReady()
 	}
 	res := Tuple{nil, st.False}
 	for _, s := range x.States {
